@@ -569,10 +569,10 @@ ObsOf(r) == [accepts |-> [i \in 1..Len(r.accepts) |->
 NoExec == [cpu |-> 0, mem |-> 0]
 Exec1 == [cpu |-> 10, mem |-> 64]
 OfferCat ==
-  << [id |-> "o1", host |-> "hA", attrs |-> [machine_id |-> "hA", rack |-> "r1"], cpus |-> 2000, mem |-> 512,
+  << [id |-> "o1", host |-> "hA", attrs |-> [machine_id |-> "hA", rack |-> "r1"], cpus |-> 4000, mem |-> 1024,
       ports |-> <<<<9000, 9003>>, <<30000, 30002>>>>],
-     [id |-> "o2", host |-> "hB", attrs |-> [machine_id |-> "hB", rack |-> "r1,r2"], cpus |-> 1000, mem |-> 256,
-      ports |-> <<<<9000, 9001>>, <<30000, 30000>>>>],
+     [id |-> "o2", host |-> "hB", attrs |-> [machine_id |-> "hB", rack |-> "r1,r2"], cpus |-> 800, mem |-> 256,
+      ports |-> <<<<9000, 9001>>, <<30000, 30001>>>>],
      [id |-> "o3", host |-> "hC", attrs |-> [machine_id |-> "hC", rack |-> "r2"], cpus |-> 4000, mem |-> 1024,
       ports |-> <<<<9000, 9002>>>>] >>
 Ct(a, v) == [attr |-> a, value |-> v]
@@ -595,7 +595,12 @@ DescCat ==
      [id |-> "d8", chain |-> << <<Ct("rack", "r9")>>, <<Ct("rack", "r2")>>, <<>> >>, cpu |-> 400, mem |-> 64, static_expr |-> "",
       tcp_inbound |-> 1, ipc_inbound |-> 0, controllable |-> FALSE],
      [id |-> "d9", chain |-> << <<Ct("machine_id", "hB")>>, <<Ct("rack", "r1")>>, <<Ct("machine_id", "hA")>> >>, cpu |-> 300, mem |-> 64,
-      static_expr |-> "9002", tcp_inbound |-> 0, ipc_inbound |-> 0, controllable |-> TRUE] >>
+      static_expr |-> "9002", tcp_inbound |-> 0, ipc_inbound |-> 0, controllable |-> TRUE],
+     \* a static port only the wrong agent offers; two TCP channels
+     [id |-> "d10", constraints |-> <<Ct("rack", "r2")>>, cpu |-> 200, mem |-> 32, static_expr |-> "9003",
+      tcp_inbound |-> 0, ipc_inbound |-> 0, controllable |-> TRUE],
+     [id |-> "d11", constraints |-> <<Ct("rack", "r2")>>, cpu |-> 200, mem |-> 32, static_expr |-> "",
+      tcp_inbound |-> 2, ipc_inbound |-> 0, controllable |-> TRUE] >>
 
 \* strictly increasing index sequences of length 1..n
 IncSeqs(m, n) == {s \in UNION {[1..k -> 1..m] : k \in 1..n} : \A i \in 1..(Len(s) - 1) : s[i] < s[i + 1]}
